@@ -15,6 +15,7 @@ func init() {
 	generators["c01dn"] = genC01DN
 	generators["c01neg"] = genC01Neg
 	generators["c02stream"] = genC02Stream
+	generators["c02short"] = genC02Short
 	runners["encode"] = runEncode
 }
 
@@ -324,6 +325,28 @@ func genC01Neg(g *Gen) {
 	for _, tag := range []int{31, 32, 100, 127} {
 		g.emit("decode", hx(nSeq(nInt(0, 2, 1), &Node{Cls: 64, Cons: true, Tag: tag, Kids: body()}).encode()))
 	}
+	// tag numbers that are a supported one modulo 2^7, 2^8, 2^16, 2^32, in the shape of that request
+	shaped := map[int]func() []*Node{
+		0:  func() []*Node { return []*Node{nInt(0, 2, 3), nOct([]byte("cn=a")), nCtx(0, []byte("pw"))} },
+		2:  func() []*Node { return nil },
+		3:  func() []*Node { return body() },
+		6:  func() []*Node { return body() },
+		8:  func() []*Node { return body() },
+		10: func() []*Node { return nil },
+		23: func() []*Node { return []*Node{nCtx(0, []byte("1.3.6.1.4.1.1466.20037"))} },
+	}
+	for tag, kids := range shaped {
+		for _, off := range []int{128, 256, 512, 1 << 14, 1 << 16, 1 << 28, 1 << 32} {
+			n := &Node{Cls: 64, Cons: true, Tag: off + tag, Kids: kids()}
+			if tag == 2 || tag == 10 {
+				n = &Node{Cls: 64, Tag: off + tag, Data: []byte("cn=a")}
+				if tag == 2 {
+					n.Data = nil
+				}
+			}
+			g.emit("decode", hx(nSeq(nInt(0, 2, 1), n).encode()))
+		}
+	}
 	// other classes carrying a supported tag number
 	for _, cls := range []int{0, 128, 192} {
 		for tag := range supported {
@@ -379,6 +402,52 @@ func genC02Stream(g *Gen) {
 			buf = append(buf, r.Bytes(1+r.Intn(5))...)
 		}
 		g.emit("stream", hx(buf))
+	}
+}
+
+// what a connection can deliver before it ends: every 1-byte stream, 2-byte
+// streams (all of them in the thorough tier), 3-byte streams behind the bytes a
+// reader might peek at, and every proper prefix of well-formed frames
+func genC02Short(g *Gen) {
+	for b := 0; b < 256; b++ {
+		g.emit("stream", hx([]byte{byte(b)}))
+	}
+	seconds := []byte{0x00, 0x01, 0x02, 0x03, 0x16, 0x30, 0x7f, 0x80, 0x81, 0x82, 0x84, 0x88, 0xff}
+	for a := 0; a < 256; a++ {
+		if g.tier == "thorough" {
+			for b := 0; b < 256; b++ {
+				g.emit("stream", hx([]byte{byte(a), byte(b)}))
+			}
+			continue
+		}
+		for _, b := range seconds {
+			g.emit("stream", hx([]byte{byte(a), b}))
+		}
+	}
+	for _, a := range []byte{0x16, 0x30, 0x80, 0x15, 0x17} {
+		for _, b := range seconds {
+			for _, c := range seconds {
+				g.emit("stream", hx([]byte{a, b, c}))
+			}
+		}
+	}
+	n := 12
+	if g.tier == "thorough" {
+		n = 200
+	}
+	for i := 0; i < n; i++ {
+		q := g.request(reqKinds[i%len(reqKinds)])
+		if q.Filter != nil {
+			q.Filter = &TFilter{Kind: "present", A: []byte("cn")}
+		}
+		frame := encodeReq(q).encode()
+		var lead []byte
+		if i%3 == 1 {
+			lead = encodeReq(&TReq{Kind: "del", ID: 9, DN: []byte("cn=a")}).encode()
+		}
+		for k := 1; k < len(frame); k++ {
+			g.emit("stream", hx(append(append([]byte{}, lead...), frame[:k]...)))
+		}
 	}
 }
 
